@@ -351,6 +351,15 @@ pub fn c12(tier: Tier) -> Vec<Case> {
             }
         }
     }
+    // what the brackets denote: every nesting of optional / closure / positive closure / group up to 4 nodes, run as parsers
+    {
+        let leaves = c02_leaves();
+        let inputs = InputSpec::Strings { alphabet: vec!['a', 'b', 'c'], max_len: 4 };
+        for e in trees(&[lit("a"), field("f", "X")], &[Op::Opt, Op::Star, Op::Plus, Op::Group, Op::Seq2], 4) {
+            let g = root_grammar(vec![Directive::Export, Directive::NoSkipWs], seq(vec![e, opt(lit("c"))]), &leaves);
+            add_if_wf(&mut b, "brackets", g, &inputs);
+        }
+    }
     // literals written next to each other with and without the case marker, with and without redundant parentheses:
     // each literal keeps its own marker
     {
@@ -683,6 +692,22 @@ pub fn c02(tier: Tier) -> Vec<Case> {
             }
         }
     }
+    // fields whose names are Rust keywords (raw identifiers in the generated code), bound by several parts of a sequence
+    {
+        let spec = InputSpec::Strings { alphabet: vec!['a', 'b', 'c'], max_len: if tier == Tier::Quick { 5 } else { 6 } };
+        for kw in ["type", "in", "mod", "match"] {
+            for body in [
+                seq(vec![field(kw, "X"), star(seq(vec![lit("a"), field(kw, "X")]))]),
+                seq(vec![opt(seq(vec![field(kw, "X"), lit("a")])), field(kw, "X")]),
+                seq(vec![field(kw, "X"), seq(vec![lit("a"), field(kw, "X"), field("g", "Y")]), opt(field(kw, "X"))]),
+                seq(vec![field(kw, "X"), field("g", "Y"), field(kw, "Y")]),
+                choice(vec![seq(vec![field(kw, "X"), lit("a"), field(kw, "X")]), field(kw, "Y")]),
+            ] {
+                let g = root_grammar(vec![Directive::Export, Directive::NoSkipWs], body, &leaves);
+                add_if_wf(&mut b, "keyword-fields", g, &spec);
+            }
+        }
+    }
     // override family: Root = r:R with R an override rule (plain overrides cannot be exported)
     for e in trees(&over_atoms, &NO_LOOKAHEAD_OPS, k_over) {
         let mut rules = vec![Rule::normal("R", vec![Directive::NoSkipWs], e.clone())];
@@ -776,7 +801,7 @@ pub fn c04(tier: Tier) -> Vec<Case> {
             }
             let g = root_grammar(dirs, e.clone(), &leaves);
             // multi-byte characters that Unicode (not peginator) calls white space, where the skipper looks
-            let spaces = InputSpec::Strings { alphabet: vec!['a', 'é', ' ', '\u{85}', '\u{a0}', '\u{2003}', '\u{2028}', '\u{3000}', '\u{feff}'], max_len: len.min(3) };
+            let spaces = InputSpec::Strings { alphabet: vec!['a', 'é', ' ', '\u{85}', '\u{a0}', '\u{2003}', '\u{2028}', '\u{3000}', '\u{feff}', '\u{800}', '\u{e01}', '\u{fff}'], max_len: len.min(3) };
             let both = InputSpec::Multi(vec![inputs.clone(), spaces]);
             add_if_wf(&mut b, if noskip { "utf8/no_skip_ws" } else { "utf8/skip" }, g, &both);
         }
@@ -1048,7 +1073,7 @@ pub fn c09(tier: Tier) -> Vec<Case> {
         Tier::Quick => (3, 4),
         Tier::Thorough => (4, 5),
     };
-    let atoms = vec![field("f", "X"), field("s", "S"), field("e", "E"), field("n", "N"), lit("b"), lit("é"), field("t", "T"), field("o", "O"), field("so", "SO"), rref("char")];
+    let atoms = vec![field("f", "X"), field("s", "S"), field("e", "E"), field("n", "N"), lit("b"), lit("é"), field("t", "T"), field("o", "O"), field("so", "SO"), rref("char"), not(lit("c")), and(lit("b"))];
     // U+FEFF (byte order mark, three bytes) may stand anywhere, also in front: it is an ordinary character
     let inputs = InputSpec::Multi(vec![
         InputSpec::Strings { alphabet: vec!['b', 'c', 'é', ' '], max_len: len },
